@@ -196,6 +196,14 @@ def wfInsn (i : Insn) : Bool :=
   else if isSt i then memMode i == 3 && i.src == 0
   else (memMode i == 3 && i.imm == 0) || (memMode i == 6 && i.imm == 0 && (Ebpf.sizeOf i.op == 4 || Ebpf.sizeOf i.op == 8))
 
+/-- rule (7), the part about constant shift counts and constant divisors: what `Binary.calculate` checks itself
+(AssembleError) since its repair.  Implied by `wfInsn` (`Ebv.C05.wfInsn_immOk`); `Ebv.C05.emitProg_imm_ok` proves it for
+everything the generator model emits -/
+def immOk (i : Insn) : Bool :=
+  !(isAlu i && !useReg i) ||
+    (if code i == 6 || code i == 7 || code i == 12 then decide (0 ≤ i.imm) && decide (i.imm < aluWidth i)
+     else if code i == 3 || code i == 9 then i.imm != 0 else true)
+
 def wfSecond (j : Insn) : Bool := j.op == 0 && j.dst == 0 && j.src == 0 && j.off == 0
 
 /-- `true` at the second slot of every LD_IMM64 -/
